@@ -15,6 +15,33 @@ CLAIMS = {
     ),
 }
 
+CLAIMS["C14"] = dict(
+    text="compute_fields decided as an inductive step over the COMPLETE flag space: for every operation, operand tagging, (subject,clipping) world below, "
+         "predecessor kind (none / plain / non-contributing upper twin; vertical or not; same or other operand) and every stale state, "
+         "if the predecessor's flags describe the world (Inv) then the new edge's in_out/other_in_out, result membership, transition and prev_in_result are the geometric truth; "
+         "coincident twins: exactly the lower twin carries the boundary with the direction of the combined change and the upper twin hands Inv over. "
+         "SAT-decided on the real function (concrete geometry: only verticality enters).",
+    design_ref="DESIGN.md 4 C14, 3 L-CF",
+    note="Outside the claim (paper glue): that the sweep-line predecessor is the geometric predecessor (L-ORD-S + L-SPLAY + sweep loop); typing rule of possible_intersection is applied by the harness (decided separately under C13/C16 where memory allows).",
+    technique=TECH,
+)
+CLAIMS["C05"] = dict(
+    text="relational form of the selection tables: on one and the same (symbolic) flag state the real compute_fields is run once per operation and the outputs are related: "
+         "a plain edge bounds exactly one of intersection/union and always xor, difference = union on subject edges / intersection on clipping edges, directions consistent, "
+         "shared edges kept by exactly the documented operations with one common direction. Complete over the flag space.",
+    design_ref="DESIGN.md 4 C05",
+    note="Edge-level identities only; the region/area identities of whole calls need the sweep and the contour walk (outside, whole calls cannot be executed symbolically).",
+    technique=TECH,
+)
+CLAIMS["C18"] = dict(
+    text="recursion depth of splay-tree work is independent of the node count: on 12-node chains (left and right) under unwind bound 8, CBMC's recursion unwinding assertions "
+         "show that drop, clear, dropping an unused / partly consumed IntoIter, SplaySet drop (subdivide's early break), get/next/prev/min/max/insert/remove "
+         "reach no recursion that follows the chain; the same teardown harnesses pass completely under a covering bound (30). Violations are replayed natively on a 3*10^6-key chain (8 MiB and 2 MiB stacks, dev+release).",
+    design_ref="DESIGN.md 4 C18",
+    note="CBMC has no stack model: the claim is structural (no unbounded recursion on chains of <= 12 nodes); the step to 10^6 nodes is the usual induction on the chain. Boolean operations with huge sweep lines are covered only through SplaySet drop.",
+    technique="bounded model checking (Kani/CBMC recursion unwinding assertions on concrete chains), native stack probe as replay",
+)
+
 _PENDING = "check not built yet in this session (planned, see DESIGN.md 4)"
 NOT_APPLICABLE = {
     "C09": "needs two complete sweeps compared, or the sweep-loop glue G-SWEEP; whole calls cannot be executed symbolically (DESIGN.md 1, 4 C09); its local mechanisms are decided under C13 (boxes) and C01/C06 (shortcut)",
